@@ -53,7 +53,12 @@ RULE = ("objects built by histories (constructor list / add_edge / add_edges, 35
         "object); 3 (quick) / 6 "
         "(thorough) draw sources per input: real generator seeded, the harness' biased in-contract source, exhaustive "
         "scripts for small inputs.  A case = one call; distinct by (hyperedge listing, parameters, draws, history); "
-        "non-trivial when the returned hyperedge set differs from the input's")
+        "non-trivial when the returned hyperedge set differs from the input's; object stream (400 quick / 6000 thorough "
+        "calls, correspondence with Model/C13Obj.lean only): 0-6 hyperedges of sizes 0-4 on 2-7 int nodes incl. isolated "
+        "ones, 50 % weighted, hyperedge / node / hypergraph metadata, order / size INTEGERS of either sign (-5..max+1, "
+        "an empty hyperedge next to non-positive requests), n_steps in {-3,-1,0,1,2,3,6}, 35 % labels unknown to "
+        "_cm_MCMC ('foo', '', None, 0, 'Edge', ...); compared: None / exception class / listing, is_weighted, weight "
+        "and metadata of every hyperedge, node set with metadata, hypergraph metadata, draws left unconsumed")
 ASSUMPTIONS = ["hyperedges are duplicate-free node tuples (node sets); labels are mapped to their rank in sorted order "
                "(C13_relabel / C13_directed_relabel: the model commutes with every strictly increasing relabelling)",
                "the theorems speak of runs that return: an exhausted draw list is `diverge` (termination of the "
@@ -61,7 +66,9 @@ ASSUMPTIONS = ["hyperedges are duplicate-free node tuples (node sets); labels ar
                "(np.random.randint(0,0,2) when no hyperedge has the requested size, random.choice of an empty side) is "
                "`raise` = no output; every other exception on an input with two or more hyperedges is a violation",
                "label='vertex' is outside the property (stub- or edge-labelled only)",
-               "weights and metadata of the input play no role (the model is a function of the hyperedge listing only)"]
+               "weights and metadata of the input play no role (the model is a function of the hyperedge listing only; "
+               "since the second extension round a theorem about the modelled object, C13_result_bare, compared on every "
+               "object-stream case)"]
 TRUSTED = ["contracts of the samplers: np.random.randint(0,m,2) returns two indices < m, np.random.rand() a float in "
            "[0,1), random.randint(0,m-1) an index < m, random.choice(seq) an element of seq (its index is recorded)",
            "iteration order of the Python set `intersection` is irrelevant (remainder independent of it, results sorted)",
@@ -1426,11 +1433,178 @@ def run(ctx):
             run_case(ctx, drv, {"kind": kind, "labels": labels, "hist": hist + [mk_call(params, True)]})
             if kind == "cm" and params.get("n_steps") == 0:
                 break
+    run_objects(ctx, drv)
+
+
+# ------------------------------------------------------------------------------------------
+# second extension round: integer arguments of either sign, unknown labels, what the returned object carries
+# (Model/C13Obj.lean, driver command `cmo`).  Correspondence only: weights / metadata of the result and the `None`
+# of an unknown label are not in the property's words, so at most OBJ_REPORTS differences are reported per run.
+
+OBJ_REPORTS = 2
+OBJ_WEIGHTS = [1, 2, 5, 0.5, 3.25, 1.0, 7]
+OBJ_UNKNOWN = ["foo", "", None, "Edge", 0, "STUB", "vertex ", ("edge",), "edges"]
+
+
+def _md(code, key="k"):
+    return {} if code == 0 else {key: code}
+
+
+def _md_code(d, key="k"):
+    if d == {}:
+        return 0
+    if isinstance(d, dict) and list(d) == [key] and isinstance(d[key], int) and d[key] > 0:
+        return d[key]
+    return 998
+
+
+def gen_object_case(rng):
+    n = rng.randint(2, 7)
+    m = rng.randint(0 if rng.random() < 0.05 else 2, 6)
+    edges = []
+    for _ in range(m):
+        sz = 0 if rng.random() < 0.04 else rng.choice([1, 2, 2, 2, 3, 3, 4])
+        e = sorted(rng.sample(range(n), min(sz, n)))
+        if e not in edges:
+            edges.append(e)
+    weighted = rng.random() < 0.5
+    sizes = sorted({len(e) for e in edges}) or [2]
+    r = rng.random()
+    params = {"label": rng.choice(["edge", "stub"]), "detailed": rng.random() < 0.6,
+              "n_steps": rng.choice([-3, -1, 0, 0, 1, 2, 3, 6])}
+    if r < 0.35:
+        params["label"] = rng.choice(OBJ_UNKNOWN)
+    r = rng.random()
+    pick = lambda: rng.choice([rng.choice(sizes), rng.choice(sizes), rng.randint(-4, -1), 0, max(sizes) + 1])  # noqa: E731
+    if r < 0.3:
+        params["size"] = pick()
+    elif r < 0.6:
+        params["order"] = pick() - 1
+    elif r < 0.65:
+        params["size"], params["order"] = pick(), pick() - 1
+    if rng.random() < 0.3 and "size" in params and edges:
+        # every hyperedge in the requested layer (unknown label: `None` instead of AttributeError)
+        edges = [e for e in edges if len(e) == len(edges[0])]
+        params["size"] = len(edges[0])
+        params.pop("order", None)
+    sz_req = params.get("size", params.get("order", 0) + 1) if ("size" in params or "order" in params) else None
+    if sz_req is not None and sz_req <= 0 and [] not in edges and rng.random() < 0.5:
+        # an empty hyperedge next to a non-positive requested size: size 0 is a layer, size -2 is not
+        edges.insert(rng.randrange(len(edges) + 1), [])
+    return {"kind": "cmo", "n": n, "edges": edges, "weighted": weighted,
+            "weights": [rng.randrange(len(OBJ_WEIGHTS)) if weighted else 0 for _ in edges],
+            "emeta": [rng.choice([0, 0, 1, 2, 3]) for _ in edges],
+            "nmeta": [rng.choice([0, 0, 1, 4]) for _ in range(n)], "hmeta": rng.choice([0, 3, 5]),
+            "params": params, "mode": rng.choice(["real", "adv"]), "seed": rng.randrange(2 ** 31)}
+
+
+def check_object(ctx, drv, case):
+    from hypergraphx import Hypergraph
+    if ctx.extra.get("object_reports", 0) >= OBJ_REPORTS:
+        return
+    lab = lambda v: 1000 + 7 * v        # noqa: E731 - fresh int objects > 256
+    rank = {lab(v): v for v in range(case["n"])}
+    params = dict(case["params"])
+    try:
+        with contextlib.redirect_stdout(io.StringIO()), warnings.catch_warnings():
+            warnings.simplefilter("ignore")
+            h = Hypergraph(edge_list=[tuple(lab(v) for v in e) for e in case["edges"]], weighted=case["weighted"],
+                           weights=[OBJ_WEIGHTS[w] for w in case["weights"]] if case["weighted"] else None,
+                           hypergraph_metadata=_md(case["hmeta"], "tag"),
+                           edge_metadata=[_md(c) for c in case["emeta"]])
+            for v in range(case["n"]):
+                h.add_node(lab(v), metadata=_md(case["nmeta"][v]))
+            E_in = [tuple(rank[x] for x in e) for e in h.get_edges()]
+    except Exception as e:  # noqa: BLE001
+        ctx.count("object_inputs_not_built")
+        ctx.extra["object_build_error"] = f"{type(e).__name__}: {e}"[:100]
+        return
+
+    def report(what):
+        ctx.count("object_reports")
+        ctx.disagree(case, "returned object / integer arguments / unknown label: " + what)
+
+    try:
+        with NumpyDraws(case["mode"], case["seed"]) as rec:
+            status, out = guarded(lambda: call_undirected(h, params, 0))
+    except _NeedMore:
+        return
+    if status == "timeout":
+        return
+    both = "order" in params and "size" in params
+    size = params.get("size", params["order"] + 1 if "order" in params else None)
+    known = params["label"] in ("edge", "stub")
+    ctx.count("object_cases")
+    ctx.count("object_" + ("both" if both else "unknown_label" if not known else
+                           "negative_size" if size is not None and size < 0 else "known_label"))
+    if params["n_steps"] < 0:
+        ctx.count("object_negative_n_steps")
+    obs = None
+    if status == "exc":
+        obs = "raise"
+        want_exc = "ValueError" if (both or known) else "AttributeError"
+        if not str(out).startswith(want_exc):
+            return report(f"raised {out}, the modelled refusal is a {want_exc}")
+    elif out is None:
+        obs = "ok none 1"
+        ctx.count("object_none_returned")
+    else:
+        try:
+            em = out.get_edges(metadata=True)
+            items = sorted((tuple(sorted(rank[x] for x in e)), 1 if out.get_weight(e) == 1 and not isinstance(out.get_weight(e), bool)
+                            else 997, _md_code(em[e])) for e in out.get_edges())
+            nm = out.get_nodes(metadata=True)
+            nodes = sorted((rank[x], _md_code(nm[x])) for x in out.get_nodes())
+            hm = 0 if out.get_hypergraph_metadata() == {"weighted": False, "type": "Hypergraph"} else 998
+            obs = ("obj", bool(out.is_weighted()), items, nodes, hm, 1,
+                   sorted(1 if w == 1 else 997 for w in out.get_weights()))
+        except Exception as e:  # noqa: BLE001
+            return report(f"the returned object cannot be read: {type(e).__name__}: {e}"[:160])
+    ctx.case(repr(("cmo", obs, E_in, sorted(params.items(), key=repr), case["mode"], case["seed"])),
+             isinstance(obs, tuple) and {e for e, _, _ in obs[2]} != {tuple(sorted(e)) for e in E_in},
+             sample={"kind": "cmo", "edges": case["edges"], "params": {k: repr(v) for k, v in params.items()}})
+    if not model_on(ctx, drv):
+        return
+    m_sel = len([e for e in E_in if size is None or len(e) == size])
+    draws, why = rec.wire(m_sel)
+    if draws is None:
+        return report("draw protocol differs from the model: " + why)
+    if not known and rec.log:
+        return report(f"unknown label {params['label']!r}: {len(rec.log)} random draws")
+    opt = lambda k: params[k] if k in params else "n"      # noqa: E731
+    E_sorted = [sorted(e) for e in E_in]
+    line = "cmo {} {} {} {} {} {} {} {} {} {} {} {} {}".format(
+        ("e" if params["label"] == "edge" else "s") if known else "o", 1 if params["detailed"] else 0,
+        opt("order"), opt("size"), params["n_steps"], 1 if case["weighted"] else 0, hgxv.enc_lists(E_sorted),
+        hgxv.enc_list(case["weights"]), hgxv.enc_list(case["emeta"]), hgxv.enc_list(list(range(case["n"]))),
+        hgxv.enc_list(case["nmeta"]), case["hmeta"], hgxv.enc_lists(draws + [[0, 0]]))   # sentinel: must be left over
+    ans = drv.ask(line)
+    ctx.count("object_lines")
+    t = ans.split(" ")
+    if t[:2] == ["ok", "obj"] and len(t) == 10:
+        mi = sorted(zip(map(tuple, hgxv.dec_lists(t[3])), hgxv.dec_list(t[4]), hgxv.dec_list(t[5])))
+        got = ("obj", t[2] == "1", mi, sorted(zip(hgxv.dec_list(t[6]), hgxv.dec_list(t[7]))), int(t[8]), int(t[9]),
+               sorted(w for _, w, _ in mi))
+    else:
+        got = ans
+    if got != obs:
+        report(f"implementation {str(obs)[:200]}, model (cmObj) {str(got)[:200]}")
+
+
+def run_objects(ctx, drv):
+    n = ctx.scale(400, 6000)
+    for _ in range(n):
+        if out_of_time(ctx) or ctx.extra.get("object_reports", 0) >= OBJ_REPORTS:
+            break
+        check_object(ctx, drv, gen_object_case(ctx.rng))
 
 
 def replay(ctx, case):
     hgxv.use_repo()
     drv = ctx.driver() if ctx.model_available else None
+    if case.get("kind") == "cmo":
+        check_object(ctx, drv, case)
+        return
     for op in case["hist"]:
         if op[0] == "call":
             op[4] = {**(op[4] or {}), "api": True}
